@@ -479,7 +479,8 @@ impl Fam for TextList {
         vec![TextList { items: vec![s.to_string()] }, TextList { items: vec!["x".into(), s.to_string(), "y".into()] }]
     }
     fn shape(&self) -> Option<Shape> {
-        if self.items.iter().any(|i| i.chars().any(|c| c.is_ascii_whitespace())) {
+        if self.items.iter().any(|i| i.contains(' ')) {
+            // F6 is about the blank: tab, LF and CR inside an item are written as references and survive
             Some(Shape::F6)
         } else {
             None
